@@ -147,11 +147,31 @@ func (c *Ctx) checkM3BucketIdentity(rule string) {
 		{"valueBucketString", "UpperBoundValue", constant.MakeFloat64(-math.MaxFloat64)},
 	}
 	seen := map[string]bool{}
+	type rangeVal struct {
+		st *ssa.Store
+		v  ssa.Value
+	}
+	var rangeVals []rangeVal
 	for _, st := range stores[fBucket] {
 		v := stripConv(st.Val)
 		if call, ok := v.(*ssa.Call); ok && staticCallee(call) != nil && staticCallee(call).Name() == "Intern" {
 			v = stripConv(call.Call.Args[1])
 		}
+		// the string may be chosen per kind first and interned / stored once: one candidate per phi edge
+		var expand func(v ssa.Value, depth int)
+		expand = func(v ssa.Value, depth int) {
+			if phi, isPhi := canon(stripConv(v)).(*ssa.Phi); isPhi && depth > 0 {
+				for _, e := range phi.Edges {
+					expand(e, depth-1)
+				}
+				return
+			}
+			rangeVals = append(rangeVals, rangeVal{st, canon(stripConv(v))})
+		}
+		expand(v, 2)
+	}
+	for _, rv := range rangeVals {
+		st, v := rv.st, rv.v
 		b1, ok1 := v.(*ssa.BinOp)
 		if !ok1 || b1.Op != token.ADD {
 			fail(st.Pos(), "the bucket range tag is not <lower>-<upper>")
